@@ -40,7 +40,7 @@ def apply_edits(copy, edits):
         cnt = src.count(e["old"])
         want = e.get("count", 1)
         if cnt != want:
-            raise SystemExit("mutant edit does not apply: %r occurs %d times in %s (expected %d)"
+            raise ValueError("mutant edit does not apply: %r occurs %d times in %s (expected %d)"
                              % (e["old"], cnt, e["file"], want))
         src = src.replace(e["old"], e["new"])
         with open(p, "w") as f:
@@ -78,7 +78,11 @@ def one(name, edits, props, tests, tier, patch=None):
         if patch:
             subprocess.check_call(["patch", "-p1", "-s", "-i", os.path.abspath(patch)], cwd=copy)
         else:
-            apply_edits(copy, edits)
+            try:
+                apply_edits(copy, edits)
+            except ValueError as e:
+                print("%-34s DOES-NOT-APPLY %s" % (name, str(e)[:160]), flush=True)
+                return
         tres = ""
         if tests:
             ok, tail = run_tests(copy)
